@@ -346,14 +346,11 @@ func trSeqBody(prop string, L int, alphabet []int, limits [][2]int, prefix ...in
 			evs = append(evs, ev)
 			t.do(ev)
 		}
-		t.finish(true)
+		t.finish(prop == "C15")
 		// liveness (C15): unused connections are retired after KeepAlive and closed after IdleConnTimeout
-		if t.up["a"] {
-			t.restart("a")
-		}
 		t.advance(tKeepAlive+tIdle+3*tTick, "idle-out")
 		for _, a := range []string{"a", "b"} {
-			if t.n.live[a] != 0 {
+			if prop == "C15" && t.n.live[a] != 0 {
 				x.Fail("C15/unused-not-reclaimed", "%d connections to %q are still open after KeepAlive+IdleConnTimeout+3 ticks without use; events: %v", t.n.live[a], a, t.log)
 			}
 		}
